@@ -111,7 +111,7 @@ fn probe_prog(fields: Vec<(&str, crate::program::Ty)>, extra: Vec<crate::program
     let idx = defs.len();
     defs.push(Def {
         path: vec!["krate".into(), "Probe".into()],
-        params: params.iter().map(|n| ParamDecl { name: n.to_string(), skipped: false, config: false, compactable: false }).collect(),
+        params: params.iter().map(|n| ParamDecl { name: n.to_string(), skipped: false, config: false, compactable: false, bitstore: false, bitorder: false }).collect(),
         docs: vec![],
         body: Body::Struct(Fields::Named(
             fields
@@ -122,6 +122,7 @@ fn probe_prog(fields: Vec<(&str, crate::program::Ty)>, extra: Vec<crate::program
         config_inner: None,
     });
     Program {
+        name_style: 0,
         defs,
         roots: roots_args.into_iter().map(|a| Ty::Def(idx, a)).collect(),
     }
@@ -145,7 +146,7 @@ impl Property for C01 {
                     let cow_unit = Def { path: vec!["farm".into(), "Cow".into()], params: vec![], docs: vec![], body: Body::Struct(Fields::Unit), config_inner: None };
                     let cow_gen = Def {
                         path: vec!["barn".into(), "Cow".into()],
-                        params: vec![ParamDecl { name: "T".into(), skipped: false, config: false, compactable: false }],
+                        params: vec![ParamDecl { name: "T".into(), skipped: false, config: false, compactable: false, bitstore: false, bitorder: false }],
                         docs: vec![],
                         body: Body::Struct(Fields::Named(vec![
                             FieldDef { name: Some("a".into()), ty: Ty::Prim(Prim::U8), compact_attr: false, docs: vec![] },
@@ -169,7 +170,7 @@ impl Property for C01 {
                 what: "Cow<'static, Cow<'static, str>>",
                 run: Box::new(|| {
                     wire_probe(
-                        &probe_prog(vec![("c", Ty::Cow(Box::new(Ty::Cow(Box::new(Ty::Prim(Prim::Str))))))], vec![], vec![], vec![vec![]]),
+                        &probe_prog(vec![("c", Ty::Cow(Box::new(Ty::Cow(Box::new(Ty::StrSlice)))))], vec![], vec![], vec![vec![]]),
                         "cow:nested-cow-unwrapped-once",
                     )
                 }),
@@ -216,7 +217,10 @@ impl Property for C01 {
         crate::realcorpus::self_check(7, 40)
     }
     fn strata(&self, tier: Tier) -> Vec<Stratum> {
-        vec![Stratum::random("programs", tier.pick(40_000, 1_000_000), tier.pick(384, 768))]
+        vec![
+            Stratum::random("programs", tier.pick(40_000, 1_000_000), tier.pick(384, 768)),
+            Stratum::random("polkadot_certified", tier.pick(60, 1_500), 96),
+        ]
     }
     /// rustc stage: emitted modules are compiled with parity-scale-codec's derives and every registry
     /// type decodes valid encodings (independent encoder, cross-checked with scale-value), consumes
@@ -328,6 +332,54 @@ impl Property for C01 {
                     stats.sample("program_case", || {
                         json!({"program": case.gen.prog.to_text(), "settings": spec.to_json(), "types": reg.types.len(), "emitted": out.tokens})
                     });
+                }
+                Ok(())
+            }
+            "polkadot_certified" => {
+                // real chain metadata: the full registry (tape empty) or a closed sub-registry; the shape
+                // clause is evaluated for the ids the registry-only certificate of DESIGN.md 3.4 admits
+                let mut t = Tape::new(bytes);
+                let full = t.chance(40) || bytes.is_empty();
+                let reg = if full {
+                    crate::metadata::polkadot().clone()
+                } else {
+                    crate::metadata::sub_registry(&mut t, 25).0
+                };
+                let spec = gen_settings(&mut t, &reg, &SettingsOpts::wire());
+                let cert = crate::cert::certify(&reg);
+                let out = match run_typegen(&reg, &spec) {
+                    GenResult::Ok(o) => o,
+                    GenResult::Panic(p) => {
+                        return Err(Failure::new(format!("panic on polkadot metadata: {p}"))
+                            .sig("generator:panic")
+                            .with(json!({"settings": spec.to_json(), "registry": registry_json(&reg)})))
+                    }
+                    _ => {
+                        stats.label("polkadot_generation_error");
+                        return Ok(());
+                    }
+                };
+                let admitted: std::collections::BTreeSet<u32> =
+                    reg.types.iter().map(|t| t.id).filter(|i| cert.admits(&reg, *i)).collect();
+                stats.count("polkadot_ids_total", reg.types.len() as u64);
+                stats.count("polkadot_ids_certified", admitted.len() as u64);
+                stats.count("polkadot_family_entries", cert.certified.len() as u64);
+                stats.count("polkadot_family_entries_certified", cert.certified.values().filter(|b| **b).count() as u64);
+                let only = |i: u32| admitted.contains(&i);
+                match check_all_ids(&reg, &spec, &out, Some(&only)) {
+                    Ok(n) => stats.count("shape_nodes_compared", n),
+                    Err((id, msg, kind)) => {
+                        return Err(Failure::new(format!("polkadot metadata: {msg}"))
+                            .sig(format!("c01:{kind}"))
+                            .with(json!({"id": id, "settings": spec.to_json(), "registry": registry_json(&reg)})))
+                    }
+                }
+                stats.label(if full { "polkadot_full" } else { "polkadot_subregistry" });
+                let h = hash_str(&format!("{}{}", registry_json(&reg), spec.to_json()));
+                for i in admitted.iter().take(2000) {
+                    if reg.resolve(*i).map(|t| t.path.segments.len() >= 2).unwrap_or(false) {
+                        stats.nontrivial(mix(&[h, *i as u64]));
+                    }
                 }
                 Ok(())
             }
